@@ -551,24 +551,31 @@ def load_corpus() -> list[dict[str, Any]]:
 	return out
 
 
-def stream_cachefs(ctx: Ctx) -> Stream:
-	rng = ctx.sub_rng('cachefs')
+def cachefs_cases(ctx: Ctx, part: tuple[int, int] = (0, 1)) -> list[tuple[dict[str, Any], list[str], list[str]]]:
+	"""The real side of the stream `cachefs`: the op lines of every case and what the real application did. `part` = (k, n): the
+	cases whose index ≡ k (mod n); every generated case draws from its own generator, so the n slices together are the whole stream."""
 	lib = lib_info(ctx)
-	cases = []
+	cases: list[tuple[dict[str, Any], list[str], list[str]]] = []
 	with ctx.timed('cachefs_real'):
-		dl = new_deadline('stream cachefs', ctx.scale(90, 600))
-		for rec in load_corpus():
-			if rec.get('stream') == 'cachefs':
+		dl = new_deadline('stream cachefs', ctx.scale(240, 900))
+		recs = [rec for rec in load_corpus() if rec.get('stream') == 'cachefs']
+		n = ctx.scale(7, 48)
+		for idx in range(len(recs) + n):
+			if idx % part[1] != part[0]:
+				continue
+			rng = random.Random(f'{ctx.prop}:{ctx.seed}:cachefs:{idx}')
+			if idx < len(recs):
+				rec = recs[idx]
 				try:
 					cases.append(case_cachefs(ctx, rng, lib, 0, bool(rec.get('seeded', True)), corpus_ops=rec['ops'], shape=rec['shape'], variants=rec['variants']))
 				except common.InfraError:
 					raise
 				except Exception as e:  # noqa: BLE001 - rule 14
 					crashed('cachefs-stream', e, {'search': 'warm-cold', 'shape': rec['shape'], 'variants': rec['variants'], 'ops': rec['ops']})
-		n = ctx.scale(7, 48)
-		for i in range(n):
-			if dl.over(n - i):
-				break
+				continue
+			i = idx - len(recs)
+			if dl.over():
+				continue
 			seeded = (i % 5) != 0
 			try:
 				cases.append(case_cachefs(ctx, rng, lib, ctx.scale(9, 16) if seeded else ctx.scale(5, 8), seeded))
@@ -576,6 +583,12 @@ def stream_cachefs(ctx: Ctx) -> Stream:
 				raise
 			except Exception as e:  # noqa: BLE001 - rule 14
 				crashed('cachefs-stream', e, {'search': 'crash', 'stream': 'cachefs', 'seed': ctx.seed, 'case': i})
+	return cases
+
+
+def stream_cachefs(ctx: Ctx, cases: list[tuple[dict[str, Any], list[str], list[str]]] | None = None) -> Stream:
+	if cases is None:
+		cases = cachefs_cases(ctx)
 	st = tproj.correspond_canon('cachefs', cases, 'cachefs', canon_lines, classify=lambda d: [d['shape'], *d['kinds']])
 	st.note = ('real TranspileApp in a temporary project (chain2/3/4, diamond, fan, vee graphs; library closure declared from the real '
 		'loader); ops edit/run/run -f/clear/delete/trunc/enable; observation per op: status, cache listing (digests renamed by first '
@@ -672,7 +685,23 @@ def diagnose_warm_cold(ctx: Ctx, lib: LibInfo, case: 'RealCase', pre: tproj.Proj
 	return 'parser-stale', 'the cached parser differs from a fresh one'
 
 
-def search_warm_cold(ctx: Ctx, only: list[tuple[str, dict[str, int], list[list[str]]]] | None = None) -> SearchResult:
+def merge_results(parts: list[SearchResult]) -> SearchResult:
+	"""One SearchResult from the results of the slices of one search (run side by side)."""
+	res = SearchResult(parts[0].oracle)
+	res.note = parts[0].note
+	for p in parts:
+		res.cases += p.cases
+		res.distinct += p.distinct
+		res.findings.extend(p.findings)
+		for k, v in p.histogram.items():
+			res.histogram[k] = res.histogram.get(k, 0) + v
+		res.samples.extend(p.samples[:max(0, 2 - len(res.samples))])
+	return res
+
+
+def search_warm_cold(ctx: Ctx, only: list[tuple[str, dict[str, int], list[list[str]]]] | None = None, part: tuple[int, int] = (0, 1)) -> SearchResult:
+	"""`part` = (k, n): this call runs the histories whose index ≡ k (mod n) — the list is the same in every slice (same sub_rng),
+	the random choices inside history i come from its own generator — so the n slices together are the whole search."""
 	rng = ctx.sub_rng('warm-cold')
 	lib = lib_info(ctx)
 	res = SearchResult('output_warm == output_cold at every run of a history (cold = same project state, empty cache directory)')
@@ -735,17 +764,23 @@ def search_warm_cold(ctx: Ctx, only: list[tuple[str, dict[str, int], list[list[s
 		vs = [str(20 + (variants[leaf] + k) % 4) for k in (1, 2)]
 		histories.append((shape, variants, [['run', '1'], ['edit', leaf, vs[0]], ['run', rng.choice(['0', '1'])], ['editat', leaf, vs[1], 'own:0'], ['run', '1']]))
 		histories.append((shape, variants, [['run', '1'], ['editat', top, str(20 + (variants[top] + 1) % 4), f'mod:{leaf}'], ['run', '1'], ['editat', leaf, vs[0], f'mod:{top}'], ['run', '0']]))
+		# … these two run right after the corpus (the run budget of the quick tier ends the list early)
+		n_corpus = sum(1 for rec in load_corpus() if rec.get('search') == 'warm-cold')
+		histories[n_corpus:n_corpus] = [histories.pop(), histories.pop()][::-1]
 	n_random = ctx.scale(5, 80) if only is None else 0
 	hist: dict[str, int] = {}
 	seen: set[str] = set()
-	budget_runs = ctx.scale(60, 400)
+	budget_runs = -(-ctx.scale(68, 400) // part[1])
 	runs = 0
-	dl = new_deadline('search warm-cold', ctx.scale(120, 700))
+	dl = new_deadline('search warm-cold', ctx.scale(300, 1200))
 	for hi in range(len(histories) + n_random):
 		if runs >= budget_runs:
 			break
 		if only is None and dl.over(len(histories) + n_random - hi):
 			break
+		if hi % part[1] != part[0]:
+			continue
+		rng = random.Random(f'{ctx.prop}:{ctx.seed}:warm-cold:{hi}')		# from here on: the choices of history `hi` alone
 		if hi < len(histories):
 			shape, variants, fixed_ops = histories[hi]
 		else:
@@ -756,6 +791,7 @@ def search_warm_cold(ctx: Ctx, only: list[tuple[str, dict[str, int], list[list[s
 		try:
 			case = RealCase(ctx, lib, shape, variants, seeded=True, enabled=True)
 			snapshots: dict[str, dict[str, str]] = {}
+			kept_seen = False
 			n_ops = len(fixed_ops) if fixed_ops is not None else ctx.scale(8, 14)
 			last_run = False
 			for i in range(n_ops):
@@ -765,6 +801,11 @@ def search_warm_cold(ctx: Ctx, only: list[tuple[str, dict[str, int], list[list[s
 					op = next_op(rng, case, allow_damage=False, allow_disable=False, last_was_run=last_run)
 					if i == 0:
 						op = ['run', '1']
+					elif op[0] == 'edit' and rng.random() < 0.2:
+						# the edit takes an mtime that was in use before: an earlier one of the module itself, or another module's
+						m = op[1]
+						spec = f'own:{rng.randrange(len(case.ticks[m]))}' if rng.random() < 0.6 else f'mod:{rng.choice(list(case.graph))}'
+						op = ['editat', m, op[2], spec]
 				ops_done.append(op)
 				last_run = op[0] == 'run'
 				if op[0] != 'run':
@@ -785,13 +826,13 @@ def search_warm_cold(ctx: Ctx, only: list[tuple[str, dict[str, int], list[list[s
 				for rel in case.proj.cache_files():
 					if '-symbols-' in rel and rel not in snapshots:
 						snapshots[rel] = current
-				kept = kept_generations(case.proj, r.events) if warm[0] == 'ok' else []
+				kept = kept_generations(case.proj, r.events) if warm[0] == 'ok' and not kept_seen else []
 				if kept:
+					# reported once per history; the history goes on (a later run may serve the file that should be gone)
+					kept_seen = True
 					hist['finding:old-generation-kept'] = hist.get('finding:old-generation-kept', 0) + 1
 					res.findings.append(Finding(key=f'old-generation-kept:{layer_of(kept[0][0])}', what=f'the run stored {kept[0][0]} and left the older generation(s) {kept[0][1]} of the same cache entry on disk '
-						'(a store evicts the older files of its entry: at most one generation per module and kind)', replay={'search': 'warm-cold', 'shape': shape, 'variants': variants, 'ops': ops_done}))
-					shutil.rmtree(pre.root, ignore_errors=True)
-					break
+						'(a store evicts the older files of its entry: at most one generation per module and kind)', replay={'search': 'warm-cold', 'shape': shape, 'variants': variants, 'ops': list(ops_done)}))
 				if CUT in (warm[0], cold[0]):
 					# a run that does not end: both alike = outside this property (counted); one of them = the outputs differ
 					side = 'both' if warm[0] == cold[0] else ('warm' if warm[0] == CUT else 'cold')
@@ -867,7 +908,7 @@ def search_truncation(ctx: Ctx, only: dict[str, Any] | None = None) -> SearchRes
 	shapes = ['chain3', 'diamond'] if not ctx.thorough else ['chain3', 'diamond', 'siblings2', *rng.sample([x for x in graph_shapes() if x not in ('chain3', 'diamond', 'siblings2')], 2)]
 	if only is not None:
 		shapes = [only['shape']] if only.get('search') == 'truncation-loader' else []
-	dl = new_deadline('search truncation', ctx.scale(75, 500))
+	dl = new_deadline('search truncation', ctx.scale(200, 900))
 
 	def loader_level(shape: str) -> None:
 		case = RealCase(ctx, lib, shape, only['variants'] if only else gen_variants(rng, graph_shapes()[shape]), seeded=True)
@@ -1016,7 +1057,7 @@ def search_disabled(ctx: Ctx, only: list[tuple[str, dict[str, int], list[list[st
 				ops.append(['edit', rng.choice(list(graph_shapes()[shape])), str(rng.randrange(N_VARIANTS))])
 			ops.append(['run', rng.choice(['0', '1'])])
 		plans.append((shape, gen_variants(rng, graph_shapes()[shape]), ops))
-	dl = new_deadline('search disabled', ctx.scale(60, 400))
+	dl = new_deadline('search disabled', ctx.scale(150, 600))
 
 	def one(shape: str, variants: dict[str, int], ops: list[list[str]]) -> None:
 		case = RealCase(ctx, lib, shape, variants, seeded=False, enabled=True)
@@ -1137,12 +1178,30 @@ def run(ctx: Ctx) -> int:
 			replay={'search': 'library-load'}))
 		searches.append(res)
 	if not searches:
+		# the real-code parts are independent of one another (own sub_rng, own temporary projects): they run side by side in forked
+		# children; what a child collected besides its result (unexpected exceptions, deadline / budget notes) comes back with it
+		def job(fn: Any) -> Any:
+			def thunk() -> dict[str, Any]:
+				return {'out': fn(ctx), 'crashes': list(CRASHES), 'notes': [n for n in (d.note() for d in DEADLINES) if n], 'hits': dict(tproj.BUDGET_HITS)}
+			return thunk
+		with ctx.timed('real_code'):
+			NS, NW = 3, 4		# slices of the stream and of the warm-cold search
+			jobs = [*((f'cachefs-{k}', job(lambda c, k=k: cachefs_cases(c, (k, NS)))) for k in range(NS)),
+				*((f'warm-cold-{k}', job(lambda c, k=k: search_warm_cold(c, part=(k, NW)))) for k in range(NW)),
+				('truncation', job(search_truncation)), ('disabled', job(search_disabled))]
+			outs = tproj.fork_map(ctx, jobs, max_parallel=max(2, min(4, os.cpu_count() or 2)))
+		forked = not os.environ.get('VERIF_NO_FORK')
+		if forked:
+			for o in outs:
+				CRASHES.extend(o['crashes'])
+				ctx.notes.extend(o['notes'])
+				for k, v in o['hits'].items():
+					tproj.BUDGET_HITS[k] = tproj.BUDGET_HITS.get(k, 0) + v
+		else:
+			ctx.notes.extend(n for n in (d.note() for d in DEADLINES) if n)
 		with ctx.timed('correspondence'):
-			streams = [stream_cachefs(ctx)]
-		with ctx.timed('search'):
-			searches = [search_warm_cold(ctx), search_truncation(ctx), search_disabled(ctx)]
-			searches.append(search_crashes(ctx))
-		ctx.notes.extend(n for n in (d.note() for d in DEADLINES) if n)
+			streams = [stream_cachefs(ctx, [c for o in outs[:NS] for c in o['out']])]
+		searches = [merge_results([o['out'] for o in outs[NS:NS + NW]]), outs[NS + NW]['out'], outs[NS + NW + 1]['out'], search_crashes(ctx)]
 		ctx.notes.extend(tproj.budget_notes())
 	return common.finish(ctx, proof, streams, searches, translate_ok=translate_ok, translate_msg=translate_msg, statements=STATEMENTS,
 		partial={
